@@ -7,8 +7,9 @@
    waiters) — instantiated with the two cores of sst/src/log.rs and glued the way
    ConcurrentLogBuilder::append glues them:
 
-       let written = self.write_cq.do_work(Arc::new(write_batch))?;      // queue W
-       if !self.fsync_cq.do_work(written) { return Err(..) }             // queue F
+       if self.poison.load(Relaxed) { return Err(log_poisoned) }         // ARefuse
+       let written = self.write_cq.do_work(Arc::new(write_batch))?;      // queue W; Err => poison
+       if !self.fsync_cq.do_work(written) { poison; return Err(..) }      // queue F
        Ok(())
 
    A thread's call enters W; when its do_work there returns Ok(written) the value becomes the input
@@ -90,9 +91,15 @@ Section ConcWL.
   Definition execW : gW -> action -> res gW := exec inpW outW accW cw [] can_batchW batchW workW.
   Definition execF : gF -> action -> res gF := exec inpF bool accF cf [] can_batchF batchF workF.
 
-  Record kstate := mkK { k_W : gW; k_F : gF; k_durable : N }.
+  (* k_poison: ConcurrentLogBuilder.poison (set when a call is answered with an error; read at the
+     top of append since b7cac52); k_refused [ghost]: the threads whose append was refused by it *)
+  Record kstate := mkK { k_W : gW; k_F : gF; k_durable : N; k_poison : bool; k_refused : list nat }.
 
-  Inductive caction := AW (a : action) | AF (a : action).
+  (* ARefuse t: thread t calls append while it sees the log poisoned: Err(log-poisoned), nothing
+     reaches a queue or the file.  (The flag is a Relaxed atomic: a call may also miss a recent
+     store and go on — that is an ordinary AW step.  By convention `progs` lists the batches of the
+     calls that go on to the queues; a refused call leaves no trace but this ghost record.) *)
+  Inductive caction := AW (a : action) | AF (a : action) | ARefuse (t : nat).
 
   (* the call that returned in this step, if any: its ghost index and output *)
   Definition new_done {I O A : Type} (th th' : thread I O A) : option (nat * O) :=
@@ -129,21 +136,34 @@ Section ConcWL.
         then Ok k
         else
           g' <- execW (k_W k) a ;;
-          let f' :=
+          let '(f', p') :=
             match nth_error (g_threads _ _ _ _ (k_W k)) t, nth_error (g_threads _ _ _ _ g') t with
             | Some th, Some th' =>
                 match new_done th th' with
-                | Some (idx, Some w) => inject (k_F k) t (idx, w)
-                | _ => k_F k
+                | Some (idx, Some w) => (inject (k_F k) t (idx, w), k_poison k)
+                | Some (idx, None) => (k_F k, true)          (* Err(err): self.poison.store(true) *)
+                | None => (k_F k, k_poison k)
                 end
-            | _, _ => k_F k
+            | _, _ => (k_F k, k_poison k)
             end in
-          Ok (mkK g' f' (k_durable k))
+          Ok (mkK g' f' (k_durable k) p' (k_refused k))
     | AF a =>
+        let t := act_thread a in
         g' <- execF (k_F k) a ;;
         let newlog := skipn (length (cf_log (g_core _ _ _ _ (k_F k)))) (cf_log (g_core _ _ _ _ g')) in
         let d := if existsb lf_sync newlog then w_bw (cw_w (g_core _ _ _ _ (k_W k))) else k_durable k in
-        Ok (mkK (k_W k) g' d)
+        let p' :=
+          match nth_error (g_threads _ _ _ _ (k_F k)) t, nth_error (g_threads _ _ _ _ g') t with
+          | Some th, Some th' =>
+              match new_done th th' with
+              | Some (_, false) => true                    (* fsync failed: self.poison.store(true) *)
+              | _ => k_poison k
+              end
+          | _, _ => k_poison k
+          end in
+        Ok (mkK (k_W k) g' d p' (k_refused k))
+    | ARefuse t =>
+        if k_poison k then Ok (mkK (k_W k) (k_F k) (k_durable k) true (t :: k_refused k)) else Ok k
     end.
 
   Fixpoint crun (k : kstate) (sched : list caction) : res kstate :=
@@ -156,5 +176,5 @@ Section ConcWL.
   Definition kinit (nW nF : nat) (oracle : list bool) (progs : list (list inpW)) : kstate :=
     mkK (ginit inpW outW accW cw nW cw0 progs)
         (ginit inpF bool accF cf nF (cf0 oracle) (map (fun _ => []) progs))
-        0%N.
+        0%N false [].
 End ConcWL.
